@@ -19,6 +19,15 @@ RunLive == \A i \in 1..Len(run) : act[run[i].a].life = "live"
 CascadeShape == \A i \in 1..(Len(run) - 1) :
      LET a == run[i].a IN act[a].stack # <<>> /\ Top(a).k = "scope" /\ Top(a).ph = "closing"
 
+\* C08: when nothing is left to do in a time step, no waiter of a condition that holds is still waiting
+\*      (not claimed for the nested-connective deviation, see Leaves in USim)
+WaitsFor(a, i) == LET fr == act[a].stack[i] IN
+                  IF fr.k = "cwait" THEN Holds(fr.n) ELSE IF fr.k = "conn" THEN Eval(fr.c) ELSE FALSE
+NoMissedWake == (Idle /\ pending = <<>> /\ fault = "") =>
+   \A a \in Acts : act[a].life = "live" => \A i \in 1..Len(act[a].stack) : ~WaitsFor(a, i)
+\* C01: every queued activation lies in the future; dates never lie in the past
+FutureOnly == \A t \in Times : t <= now => future[t] = <<>>
+
 \* C09
 MutualExclusion == \A l \in Locks : \A a, b \in Acts : (HeldCount(a, l) > 0 /\ HeldCount(b, l) > 0) => a = b
 OwnerConsistent == \A l \in Locks : \A a \in Acts : HeldCount(a, l) > 0 => (lock[l].owner = a /\ lock[l].depth = HeldCount(a, l))
